@@ -25,7 +25,7 @@ from ..zone import check_zone
 BASELINE = os.path.join(VERIF, "rules", "site_baseline.json")
 
 ALWAYS = ("assert:bounds", "assert:div_zero", "assert:rem_zero", "call:slice-index", "call:slice-op",
-          "call:vec-op", "call:refcell", "call:divlike")
+          "call:vec-op", "call:refcell", "call:div-call")
 ARITH = ("assert:overflow", "assert:overflow_neg", "call:arith-call", "call:debug-assert")
 DIVLIKE = ("div_euclid", "rem_euclid", "ilog", "ilog2", "ilog10", "isqrt", "div", "rem", "div_assign", "rem_assign")
 
@@ -81,10 +81,6 @@ def classify_kind(site):
     t = b.blocks[bb].term
     if k.startswith("call:panic") and t.kind == "call" and (("debug_assert" in (t.macro or "")) or ("debug_assert" in (t.outer_macro or ""))):
         return "call:debug-assert"
-    if k.startswith("call:arith-call:"):
-        name = k.split(":")[-1]
-        if name in DIVLIKE:
-            return "call:divlike:" + name
     return k
 
 
